@@ -240,6 +240,11 @@ func RunC17(run *ev.Run) {
 		}
 	}
 	wg.Wait()
+	// (i-b) three converters of one package sharing ONE output file: a fault of any of them (first, middle or last in
+	// name order) fails the whole run
+	ns := c17SharedFile(run, base, bin)
+	states += ns
+	transitions += ns
 	// (ii) argv
 	na, nv := c17Argv(run, base)
 	// (iii) output locations taken by something else: success may not be claimed
@@ -255,7 +260,7 @@ func RunC17(run *ev.Run) {
 	run.Cov["traces_validated_against_impl"] = states + na
 	run.Cov["exhaustive"] = !run.Harness
 	run.Cov["converters"] = nconv
-	run.Cov["rule"] = fmt.Sprintf("(i) %d converters over 2-3 packages, each in one of the states %v (every subset faulty, at directive, signature, conversion, late-setting and rendering stage) x pre-existing outputs {none, present, present and corrupted}: real CLI run; a faulty run must exit 1 with a diagnostic on stderr and leave the tree byte-identical, a good run must exit 0 and every output file must equal the in-memory result; (ii) every argv of length <=k over the token menu against an independent model of the flag grammar: help => exit 0, usage error => exit 1 with text, neither may touch the tree; generate => exit 0 or 1, never a crash, and exit 1 leaves the tree unchanged; (iii) output locations taken by something else (file path is a directory, directory path is a file, output:file names an existing directory; alone and next to an unobstructed package in both pattern orders): exit 0 only if the converter's file was really written", nconv, c17States)
+	run.Cov["rule"] = fmt.Sprintf("(i) %d converters over 2-3 packages, each in one of the states %v (every subset faulty, at directive, signature, conversion, late-setting and rendering stage) x pre-existing outputs {none, present, present and corrupted}: real CLI run; a faulty run must exit 1 with a diagnostic on stderr and leave the tree byte-identical, a good run must exit 0 and every output file must equal the in-memory result; (ii) every argv of length <=k over the token menu against an independent model of the flag grammar: help => exit 0, usage error => exit 1 with text, neither may touch the tree; generate => exit 0 or 1, never a crash, and exit 1 leaves the tree unchanged; (iii) output locations taken by something else (file path is a directory, directory path is a file, output:file names an existing directory; alone and next to an unobstructed package in both pattern orders): exit 0 only if the converter's file was really written; (i-b) three converters sharing one output file, every state combination", nconv, c17States)
 }
 
 func faultClass(combo []string) string {
@@ -589,5 +594,80 @@ func RunBlockedOutputs(run *ev.Run) int {
 	}
 	wg.Wait()
 	run.Cov["blocked_output_runs"] = n
+	return n
+}
+
+// c17SharedFile: converters Aa, Mm, Zz of package s all write s/generated/generated.go.
+func c17SharedFile(run *ev.Run, base, bin string) int {
+	convs := []c17Conv{{"s", "Aa", "s/aa.go"}, {"s", "Mm", "s/mm.go"}, {"s", "Zz", "s/zz.go"}}
+	var combos [][]string
+	var rec func(cur []string)
+	rec = func(cur []string) {
+		if len(cur) == len(convs) {
+			combos = append(combos, append([]string{}, cur...))
+			return
+		}
+		for _, st := range c17States {
+			rec(append(cur, st))
+		}
+	}
+	rec(nil)
+	okTree, okRun, err := fshist.RunIn(bin, c17Tree(convs, []string{"ok", "ok", "ok"}), filepath.Join(base, "shared-ok"), "", nil, "gen", "./...")
+	if err != nil || okRun.Exit != 0 {
+		fmt.Fprintln(os.Stderr, "HARNESS-ERROR: shared-file baseline failed")
+		run.Harness = true
+		return 0
+	}
+	var mu sync.Mutex
+	var wg sync.WaitGroup
+	sem := make(chan bool, nWorkers)
+	n := 0
+	for ci, combo := range combos {
+		for _, pre := range []string{"clean", "outputs-present"} {
+			ci, combo, pre := ci, combo, pre
+			wg.Add(1)
+			sem <- true
+			go func() {
+				defer wg.Done()
+				defer func() { <-sem }()
+				t := c17Tree(convs, combo)
+				if pre != "clean" {
+					for p, e := range okTree {
+						if strings.Contains(p, "generated") {
+							t[p] = e
+						}
+					}
+				}
+				after, r, err := fshist.RunIn(bin, t, filepath.Join(base, fmt.Sprintf("sh%d-%s", ci, pre)), "", nil, "gen", "./...")
+				mu.Lock()
+				defer mu.Unlock()
+				if err != nil {
+					run.Harness = true
+					return
+				}
+				n++
+				anyFault := false
+				for _, st := range combo {
+					anyFault = anyFault || st != "ok"
+				}
+				run.Outcome(fmt.Sprintf("shared-file:any=%v/exit:%d", anyFault, r.Exit))
+				desc := map[string]any{"kind": "c17-shared-file", "states": combo, "pre": pre}
+				site := "shared-file:" + faultClass(combo) + "/pre:" + pre
+				created, changed, deleted := fshist.Diff(t, after)
+				switch {
+				case anyFault && r.Exit != 1:
+					run.Report(ev.Violation{Site: site, Symptom: fmt.Sprintf("exit-%d-on-failure", r.Exit), Detail: fmt.Sprintf("converters Aa, Mm, Zz share s/generated/generated.go, states %v: exit %d, stderr:\n%s", combo, r.Exit, firstN(r.Stderr, 600)), Case: desc})
+				case anyFault && strings.TrimSpace(r.Stderr) == "":
+					run.Report(ev.Violation{Site: site, Symptom: "no-diagnostic-on-stderr", Detail: fmt.Sprint(combo), Case: desc})
+				case anyFault && len(created)+len(changed)+len(deleted) > 0:
+					run.Report(ev.Violation{Site: site, Symptom: "failing-run-changed-files", Detail: fmt.Sprintf("states %v: created %v changed %v deleted %v", combo, created, changed, deleted), Case: desc})
+				case !anyFault && r.Exit != 0:
+					run.Report(ev.Violation{Site: site, Symptom: fmt.Sprintf("exit-%d-on-success", r.Exit), Detail: firstN(r.Stderr, 600), Case: desc})
+				}
+			}()
+		}
+	}
+	wg.Wait()
+	run.Cov["shared_file_runs"] = n
 	return n
 }
